@@ -573,7 +573,14 @@ func (s *stickyBalanceStrategy) reassignPartition(partition topicPartitionAssign
 	consumer := currentPartitionConsumer[partition]
 	// find the correct partition movement considering the stickiness requirement
 	partitionToBeMoved := s.movements.getTheActualPartitionToBeMoved(partition, consumer, newConsumer)
-	return s.processPartitionMovement(partitionToBeMoved, newConsumer, currentAssignment, sortedCurrentSubscriptions, currentPartitionConsumer)
+	owner := currentPartitionConsumer[partitionToBeMoved]
+	sortedCurrentSubscriptions = s.processPartitionMovement(partitionToBeMoved, newConsumer, currentAssignment, sortedCurrentSubscriptions, currentPartitionConsumer)
+	if owner != consumer {
+		// the movement that was undone instead belongs to the member the examined partition came from earlier in
+		// this plan: hand the examined partition back to it, otherwise its current owner keeps its load
+		sortedCurrentSubscriptions = s.processPartitionMovement(partition, owner, currentAssignment, sortedCurrentSubscriptions, currentPartitionConsumer)
+	}
+	return sortedCurrentSubscriptions
 }
 
 // Track the movement of a topic partition after assignment
